@@ -45,7 +45,7 @@ REQUIRED_PROBES = ["prefix", "byteflip", "json_mutation", "arbitrary_json", "dee
 
 
 def budget(tier):
-    return 4000 if tier == "quick" else 200_000
+    return 6000 if tier == "quick" else 200_000
 
 
 def wall(tier):
@@ -66,7 +66,8 @@ def rand_snap(rng):
 
 
 REPLACEMENTS = [None, [], {}, 0, -1, 1.5, 101, 256, 10 ** 30, "x", "", "12", True, False, [1, 2], {"a": 1}, [[]],
-                {"children": 1}, "null"]
+                {"children": 1}, "null", "@HUGEINT@", "@HUGEINT@", "@NAN@", "@INF@", "@HUGEFLOAT@"]
+RAW_LITERALS = {'"@HUGEINT@"': "9" * 4400, '"@NAN@"': "NaN", '"@INF@"': "-Infinity", '"@HUGEFLOAT@"': "1" + "0" * 400 + ".5"}
 
 
 def paths_of(obj, path=()):
@@ -114,7 +115,7 @@ def gen(seed: int, i: int, tier: str) -> dict:
     snap = rand_snap(rng)
     text = native_image(snap) if rng.random() < 0.7 else legacy_image(snap, null_strings=rng.random() < 0.5)
     kind = rng.choice(["prefix", "prefix", "byteflip", "json_mutation", "json_mutation", "json_mutation",
-                       "arbitrary_json", "deep_nesting", "undecodable", "device_error", "missing_file", "empty_file",
+                       "arbitrary_json", "arbitrary_json", "deep_nesting" if rng.random() < 0.3 else "json_mutation", "undecodable", "device_error", "missing_file", "empty_file",
                        "valid_image"])
     fault = None
     content = text.encode()
@@ -146,9 +147,15 @@ def gen(seed: int, i: int, tier: str) -> dict:
             if isinstance(tgt, dict):
                 data = set_path(data, parent + (rng.choice(["unknown", "abc", "-1", "", "1e3", "256"]),),
                                 rng.choice(REPLACEMENTS + [tgt[p[-1]]]))
-        content = json.dumps(data).encode()
+        text2 = json.dumps(data)
+        for k, v in RAW_LITERALS.items():
+            text2 = text2.replace(k, v)
+        content = text2.encode()
     elif kind == "arbitrary_json":
         content = json.dumps(rand_json(rng, 6)).encode()
+        if rng.random() < 0.15:
+            content = rng.choice([b"9" * 4400, b"[" + b"1" * 5000 + b"]", b'{"0": {"node_id": ' + b"7" * 4301 + b"}}",
+                                  b"-" + b"3" * 4500, b"NaN", b'{"a": 1e999}'])
     elif kind == "deep_nesting":
         n = rng.choice([1000, 100_000])
         content = rng.choice([b"[" * n, b'{"0":' * n, b"[" * n + b"]" * n])
